@@ -348,21 +348,37 @@ impl ASN1Type {
         &mut self,
         tlds: &BTreeMap<String, ToplevelDefinition>,
     ) -> bool {
+        self.link_nested_components_of_notation(tlds, 0)
+    }
+
+    /// Resolves `COMPONENTS OF` notations. A referenced type that uses `COMPONENTS OF`
+    /// itself is resolved first, so that the result does not depend on the order in which
+    /// the top-level declarations are linked. `depth` guards against circular references.
+    fn link_nested_components_of_notation(
+        &mut self,
+        tlds: &BTreeMap<String, ToplevelDefinition>,
+        depth: usize,
+    ) -> bool {
         match self {
             ASN1Type::Choice(c) => c
                 .options
                 .iter_mut()
-                .any(|o| o.ty.link_components_of_notation(tlds)),
+                .any(|o| o.ty.link_nested_components_of_notation(tlds, depth)),
             ASN1Type::Set(s) | ASN1Type::Sequence(s) => {
                 let mut member_linking = s
                     .members
                     .iter_mut()
-                    .any(|m| m.ty.link_components_of_notation(tlds));
+                    .any(|m| m.ty.link_nested_components_of_notation(tlds, depth));
                 // TODO: properly link components of in extensions
                 // TODO: link components of Class field, such as COMPONENTS OF BILATERAL.&id
-                for comp_link in &s.components_of {
-                    if let Some(ToplevelDefinition::Type(linked)) = tlds.get(comp_link) {
-                        if let ASN1Type::Sequence(linked_seq) = &linked.ty {
+                // Resolved references are removed, so that components are copied only once
+                for comp_link in std::mem::take(&mut s.components_of) {
+                    if let Some(ToplevelDefinition::Type(linked)) = tlds.get(&comp_link) {
+                        let mut linked_ty = linked.ty.clone();
+                        if depth < tlds.len() {
+                            linked_ty.link_nested_components_of_notation(tlds, depth + 1);
+                        }
+                        if let ASN1Type::Sequence(linked_seq) = &linked_ty {
                             linked_seq
                                 .members
                                 .iter()
@@ -381,7 +397,9 @@ impl ASN1Type {
                 }
                 member_linking
             }
-            ASN1Type::SequenceOf(so) => so.element_type.link_components_of_notation(tlds),
+            ASN1Type::SequenceOf(so) => so
+                .element_type
+                .link_nested_components_of_notation(tlds, depth),
             _ => false,
         }
     }
